@@ -463,3 +463,33 @@ def r12j(fb, rep):
 def _disc_switches(b):
     from .common import enum_switches_any
     return list(enum_switches_any(b))
+
+
+def r12k(fb, rep):
+    """R12k — a host call of a Gluon function is stack-neutral on success: `Function::call_first` reads the callee's result with
+    `Stack::last()` and must pop that slot on every path to its return.  Marshalling allocates compound values from "the top N
+    stack slots" (`Collect`, tuples, records, `push_new_data`, the argument window of the next call) and `BTreeMap: Pushable`
+    calls a Gluon function per entry, so a slot left behind by one call shifts the window of the enclosing value: later elements
+    of a `Vec<BTreeMap<..>>`, a tuple with a trailing map, nested maps come back as other values (C11, "through a Gluon
+    function ... comes back equal")."""
+    R = "R12k"
+    rep.rule(R, "Function::call_first pops the result slot it read before it returns")
+    n = 0
+    for bid, b in sorted(fb.bodies.items()):
+        if b.kind != "fn" or not bid.endswith("::call_first") or not bid.startswith("gluon_vm::api::function::Function::<"):
+            continue
+        lasts = [c for c in b.calls() if c.res.endswith("stack::Stack::last") or c.res.endswith("::last") and "stack::" in c.res]
+        pops = [c.bb for c in b.calls() if "stack::" in c.res and c.res.rsplit("::", 1)[-1] in ("pop", "pop_many", "pop_value")]
+        if not lasts:
+            rep.anchor_lost(R, "%s no longer reads its result with Stack::last" % bid)
+            continue
+        n += 1
+        rets = {i for i, blk in enumerate(b.blocks) if blk["t"][0] == "ret"}
+        bad = [c for c in lasts if rets & b.reachable(c.target, avoid_blocks=pops)] if all(c.target is not None for c in lasts) else lasts
+        sig = bid[bid.index("fn("):bid.rindex(">::call_first")]
+        if bad:
+            rep.violation(R, "result-left-on-stack|%s" % sig, "%s reads the callee's result with Stack::last() and can return without popping it: every completed host call leaves one slot "
+                          "on the thread's stack and compound values marshalled around such calls (maps inside vectors / tuples / maps) take the wrong slots" % bid, bad[0].where())
+        else:
+            rep.ok(R, "call_first %s: result read with last() and popped on every path to the return" % sig)
+    rep.floor(R, "Function::call_first instances", n, 8)
